@@ -162,8 +162,19 @@ class PathEval:
                 return ("rec", tuple(self.ev(o) for o in t[4]))
             if t[1] == "tuple":
                 return ("tuple", tuple(self.ev(o) for o in t[4]))
+        if k == "fnref":
+            return ("fnref", t[1])
         if k == "call":
             nm, a = t[1].name, t[2]
+            if nm in ("call_once", "call_mut", "call") and len(a) == 2:
+                # an indirect call of a function item handed in as an argument (`zip_with(arg, f64::max)`): apply it
+                try:
+                    fv = self.ev(a[0])
+                except NotEval:
+                    fv = None
+                args = strip(a[1])
+                if isinstance(fv, tuple) and fv[0] == "fnref" and isinstance(args, tuple) and args[:2] == ("agg", "tuple"):
+                    return self.ev(("call", fv[1], tuple(args[4]), ()))
             if nm in ("eq", "ne") and len(a) == 2 and (t[1].key() or "").startswith("std::ptr::"):
                 if nm == "ne":
                     raise NotEval("ptr::ne")
